@@ -13,7 +13,7 @@ Lemma run_hook_no_cleanup cfg st h k st' r ev :
   run_hook cfg st h k = (st', r, ev) -> existsb is_raising_cleanup ev = false.
 Proof.
   unfold run_hook. destruct (c_dry cfg || negb (c_hooks cfg h)); [intros E; inversion E; reflexivity|].
-  destruct (c_faults cfg h k); intros E; inversion E; reflexivity.
+  destruct (c_faults cfg h k), (c_aborts cfg h k); intros E; inversion E; reflexivity.
 Qed.
 
 Lemma existsb_app' {A} (f : A -> bool) a b : existsb f (a ++ b) = existsb f a || existsb f b.
